@@ -28,8 +28,13 @@ def rule_guard(rep):
         wave, index, sub = [p["name"] for p in fn["params"]]
         uns = locate(fn["body"], lambda x: x.get("k") == "unsafe")
         if not uns:
-            rep.ob(R, "%s/unsafe" % tname, False, "no unsafe block found (anchor)", loc(fn))
-            continue
+            unchecked = [x for x in walk(fn["body"]) if (x.get("k") == "mcall" and x["name"].startswith(("get_unchecked", "as_ptr", "as_mut_ptr", "offset", "add")))
+                         or (x.get("k") == "call" and is_path(x["f"]) and x["f"]["p"].endswith("_unsafe"))]
+            safe = not unchecked and not fn.get("unsafe")
+            for what in ("index-assert", "subindex-assert"):
+                rep.ob(R, "%s/%s" % (tname, what), safe,
+                       "this kernel contains no unsafe block and no unchecked access: every access is bounds-checked by the language" if safe else
+                       "no unsafe block found, but unchecked accesses are present (%s)" % [show(x)[:40] for x in unchecked][:2], loc(fn))
         for node, chain, ctrl in uns:
             asserts = []
             for s in earlier_stmts(chain):
